@@ -48,3 +48,20 @@ prop('C12', 'exploration',
      'BOUNDED ONLY so far: one configuration record first, one row after construction and after every batch+steps, '
      'rows equal to the projection of the hierarchy on the emit flags.',
      driver='bounded.sched', driver_args=['--prop', 'C12'], rule=SCHED_RULE)
+
+prop('C14', 'exploration',
+     'BOUNDED ONLY: the substance of serialization lives in orjson and pint (external, no contract within reach can '
+     'express a round trip through them). Contracts evaluated on the real serialize_value/deserialize_value over '
+     'generated value trees: output is plain JSON data, serialize is idempotent on its output, deserialize(serialize(x)) '
+     'equals x modulo what JSON cannot represent (tuples/sets/arrays come back as lists), unsupported values and '
+     'non-string keys raise TypeError.',
+     driver='bounded.c14', rule='seeded random value trees of depth <= 3/4 over the value pool of the statement; '
+     'non-trivial = container values; distinct by repr',
+     trusted=['orjson', 'pint', 'numpy'])
+prop('C18', 'exploration',
+     'BOUNDED part: timeseries / path-timeseries / query laws on generated histories (falsy values, changing shapes). '
+     'The deductive part (RAMEmitter.get_data via get_in/paths_to_dict contracts) is listed when built.',
+     driver='bounded.c18')
+prop('C19', 'exploration',
+     'BOUNDED part: all permutations of event multisets x timesteps on the real engine against reference semantics.',
+     driver='bounded.c19')
